@@ -62,11 +62,16 @@ func runC10(c *ShardCtx) {
 	}
 	inputs := peg.Inputs([]string{"a", "b"}, 3)
 	idx := 0
+	var inputs0 = inputs
+	var diffAll func(g *peg.Grammar, xs []core.Gen, opts []rtapi.RunOpts, scripts []map[int]*rtapi.Block)
 	diff := func(g *peg.Grammar, xs []core.Gen, opts []rtapi.RunOpts, scripts []map[int]*rtapi.Block) {
 		idx++
 		if !c.Mine(idx) {
 			return
 		}
+		diffAll(g, xs, opts, scripts)
+	}
+	diffAll = func(g *peg.Grammar, xs []core.Gen, opts []rtapi.RunOpts, scripts []map[int]*rtapi.Block) {
 		text := peg.Print(g, nil)
 		c.Res.Grammars++
 		if len(scripts) == 0 {
@@ -125,6 +130,41 @@ func runC10(c *ShardCtx) {
 	}
 	xs := []core.Gen{{}, {BasicLatin: true}, {OptGrammar: true}, {BasicLatin: true, OptGrammar: true}}
 	def := []rtapi.RunOpts{{MaxExpr: 600, Filename: "f"}}
+	// cross family (cross.go): every construct x every flag set X, parser(X) vs parser(X + -optimize-parser),
+	// with fault scripts (every block in turn returns an error / panics) and both Recover settings
+	{
+		cn := 3
+		if c.Thorough() {
+			cn = 4
+		}
+		inputs = crossInputs
+		ok := runCross(c, &idx, &crossSpec{maxSize: cn, each: func(g *peg.Grammar, lr bool) {
+			var gx []core.Gen
+			for m := 0; m < 4; m++ {
+				x := core.Gen{BasicLatin: m&1 != 0, OptGrammar: m&2 != 0, LeftRec: lr}
+				if x.OptGrammar && g.Rule("R") != nil {
+					x.AltEntry = []string{"R"}
+				}
+				gx = append(gx, x)
+			}
+			scripts := crossPredScripts(g)
+			blocks := g.Blocks()
+			for k, b := range blocks {
+				s := map[int]*rtapi.Block{}
+				for _, b2 := range blocks {
+					s[b2.ID] = &rtapi.Block{Ops: rtapi.OpShallow | rtapi.OpCloner | rtapi.OpGlobal}
+				}
+				s[b.ID].Err = "e" + itoa(b.ID)
+				s[b.ID].Panic = k % 3
+				scripts = append(scripts, s)
+			}
+			diffAll(g, gx, []rtapi.RunOpts{{MaxExpr: 600, Filename: "f", InitState: true}, {MaxExpr: 600, NoRecover: true}}, scripts)
+		}})
+		inputs = inputs0
+		if !ok {
+			return
+		}
+	}
 	// (a)
 	en := peg.NewEnumerator(peg.Alphabet{Leaves: baseLeaves(), Unary: allUnary, Seq: true, Choice: true, MaxArity: 3})
 	for _, body := range en.UpTo(n) {
